@@ -850,7 +850,7 @@ def run(ctx: core.Ctx):
         ctx.violation("real output violates C11: " + what.split(":")[0],
                       {"case": small, "observed": rr, "expected_partitions": oracle(small) if len(small["ids"]) <= 40 else None, "detail": what},
                       kind="concrete", match_info={"failure": what.split(":")[0]})
-    if not concrete:
+    if not ctx.violations:  # no NEW concrete violation (none at all, or only ones a registered known finding describes)
         if broken:
             c, w = broken[0]
             ctx.violation("correspondence MultiThreshold model <-> cluster_pairwise_predictions_at_multiple_thresholds no longer checks",
